@@ -44,6 +44,8 @@ var registry = map[string]propDef{
 	"C10o": {"other", props.C10levels},
 	"C10r": {"other", props.C10mirror},
 	"C10v": {"other", props.C10bitvec},
+	"C10k": {"other", props.C10take},
+	"C10w": {"other", props.C10setwires},
 	"C19d": {"other", props.C19duality},
 	"C18g": {"other", props.C18guards},
 	"C18r": {"other", props.C18rows},
